@@ -532,6 +532,18 @@ func checkC12(c *Ctx) {
 	if nCA == 0 {
 		r.Undecided("C12.expiry", "created-at", "-", "no assignment of SendToExternal.CreatedAt found")
 	}
+	// ... and it is the time of the block that creates it: module code does not run a step under a context whose
+	// block time or height it has set itself
+	for _, f := range sortedFuncs(c.LiveReach()) {
+		if p.L.IsGenerated(f.Pos()) || !p.IsModule(f) {
+			continue
+		}
+		ana.Calls(f, func(site ssa.CallInstruction, d ana.CalleeDesc) {
+			if d.Recv == "Context" && (d.Name == "WithBlockTime" || d.Name == "WithBlockHeight" || d.Name == "WithBlockHeader") {
+				r.Bad("C12.expiry", "context-time:"+fname(f), c.pos(site.(ssa.Instruction)), fname(f)+" runs code under a context whose block time / height it sets itself ("+d.Name+"): what is created there carries that time (a transfer created with an old CreatedAt is already expired)")
+			}
+		})
+	}
 }
 
 // collectedUnder: every entry-typed argument of the call is an element of one local slice, and every
